@@ -42,7 +42,7 @@ enum OpKind : int {
 	O_REEXTENT, O_REEXTENT_FILL, O_REEXTENT_MOVE, O_CLEAR, O_RESHAPE,
 	O_VASSIGN_VIEW, O_VASSIGN_ARRAY, O_VASSIGN_CONV, O_VASSIGN_RANGE, O_VASSIGN_IL, O_VFILL, O_VSWAP, O_EASSIGN, O_EASSIGN_IL, O_ELEM_WRITE,
 	O_READ, O_COMPARE, O_HOLD, O_RELOCATE, O_VEC_PUSH,
-	O_SAVE, O_LOAD, O_MSG_PACK, O_MSG_XFER,
+	O_SAVE, O_LOAD, O_MSG_PACK, O_MSG_XFER, O_REF_ASSIGN,
 	O_COUNT
 };
 inline char const* op_name(int k) {
@@ -53,7 +53,7 @@ inline char const* op_name(int k) {
 	    "REEXTENT", "REEXTENT_FILL", "REEXTENT_MOVE", "CLEAR", "RESHAPE",
 	    "VASSIGN_VIEW", "VASSIGN_ARRAY", "VASSIGN_CONV", "VASSIGN_RANGE", "VASSIGN_IL", "VFILL", "VSWAP", "EASSIGN", "EASSIGN_IL", "ELEM_WRITE",
 	    "READ", "COMPARE", "HOLD", "RELOCATE", "VEC_PUSH",
-	    "SAVE", "LOAD", "MSG_PACK", "MSG_XFER"};
+	    "SAVE", "LOAD", "MSG_PACK", "MSG_XFER", "REF_ASSIGN"};
 	return (k >= 0 && k < O_COUNT) ? n[k] : "?";
 }
 
